@@ -16,6 +16,7 @@ TECHNIQUE = (
     "all forced-alignment sources (foreign insertions make the minimal diff unique, so the generator knows the source "
     "position of every plain character); all ordered pairs of strings for monotonicity / range of offset translation"
 )
+TECHNIQUE += "; " + 'also: periodic plain texts, > 200-character texts with insertions on every subset of <= 3 lines, non-ASCII inserted material, annotations as one-shot iterators; a subset again under python -O'
 RULE = (
     "nosource: plain = all strings <= 5 over {a,b,' '} x all ordered tuples of <= 2 (quick) / 3 (thorough, |plain| <= 4) spans; "
     "forced: plains of distinct and repeated letters x all placements of <= k insertions from {<i>,</i>,<b>,</b>,\\n,\\t\\t} x "
